@@ -137,3 +137,11 @@ Theorem gen_floodplains_eq : forall (F : Type) ds sq elv (uparea : list F) (upa_
   gen_floodplains F ds sq elv uparea upa_min b fdef fbool fval = floodplains ds sq stream hmax elv.
 Proof. exact GenFloodplainsEq.gen_floodplains_eq. Qed.
 Print Assumptions gen_floodplains_eq.
+
+(* core._window regenerated from the source: its cells (the entries that are not the missing value) ARE the model's window *)
+From PF Require Import GenCoreWindowEq.
+From PFG Require Import GenCore.
+Theorem gen__window_cells : forall (idx0 k : nat) (ds main : list nat) (strord : option (list Z)), (idx0 < size ds)%nat ->
+  filter (fun x => Nat.ltb x (size ds)) (gen__window idx0 k ds main strord) = window ds main strord k idx0.
+Proof. exact GenCoreWindowEq.gen__window_cells. Qed.
+Print Assumptions gen__window_cells.
